@@ -795,14 +795,16 @@ fn pt_thread<C: Debug + Hash>(
                 let mut l = loc.borrow_mut();
                 let l = &mut *l;
                 l.evals += 1;
-                if (spec.nontrivial)(&case) {
+                // (classification helpers may serialise the case themselves: a refusal there is the
+                // oracle's to report, not a reason to lose the thread)
+                if std::panic::catch_unwind(std::panic::AssertUnwindSafe(|| (spec.nontrivial)(&case))).unwrap_or(false) {
                     let fp = fingerprint(&case);
                     if l.nontriv.insert(fp) && l.samples.len() < 2 && t == 0 {
                         l.samples.push(json!(trunc(format!("{:?}", case), 700)));
                     }
                 }
                 l.labels.clear();
-                (spec.classify)(&case, &mut l.labels);
+                let _ = std::panic::catch_unwind(std::panic::AssertUnwindSafe(|| (spec.classify)(&case, &mut l.labels)));
                 for lb in &l.labels {
                     *l.classes.entry(lb.clone()).or_insert(0) += 1;
                 }
@@ -922,6 +924,22 @@ pub fn replay_bytes<C: Debug>(
     guarded(prop, oracle, &case)
 }
 
+/// (location, message) of the most recent panic in this process
+pub static LAST_PANIC: Mutex<Option<(String, String)>> = Mutex::new(None);
+
+/// The crate's refusals are panics that the drivers catch; keep the log quiet, but remember where
+/// the latest one came from (ACPIV_LOUD=1 keeps the default report as well).
 pub fn silence_panics() {
-    std::panic::set_hook(Box::new(|_| {}));
+    let default = std::panic::take_hook();
+    let loud = std::env::var("ACPIV_LOUD").is_ok();
+    std::panic::set_hook(Box::new(move |info| {
+        let loc = info.location().map(|l| format!("{}:{}", l.file(), l.line())).unwrap_or_default();
+        let msg = info.payload().downcast_ref::<&str>().map(|s| s.to_string()).or_else(|| info.payload().downcast_ref::<String>().cloned()).unwrap_or_default();
+        if let Ok(mut g) = LAST_PANIC.lock() {
+            *g = Some((loc, msg));
+        }
+        if loud {
+            default(info);
+        }
+    }));
 }
